@@ -483,6 +483,49 @@ def import_repo():
     return productmd
 
 
+def canonical_json(d):
+    return json.dumps(d, indent=4, sort_keys=True, separators=(",", ": "))
+
+
+def dict_cycle(obj, text, what):
+    """The same cycle through the dict spelling of the API (JSON formats): deserialize(parsed document) - twice from ONE parsed
+    document, which stays what the caller parsed - and serialize(dict): into an empty dict and over a dict that already holds
+    the previous document (what a caller does who updates a parsed file in place)."""
+    import copy
+    fails = []
+    cls = type(obj)
+    doc = json.loads(text)
+    snap = copy.deepcopy(doc)
+    for n in ("first", "second"):
+        o = cls()
+        try:
+            o.deserialize(doc)
+            back = o.dumps()
+        except Exception as exc:
+            fails.append("%s: %s deserialize() of one parsed document: %s: %s" % (what, n, type(exc).__name__, exc))
+            break
+        if doc != snap:
+            fails.append("%s: deserialize() changed the caller's parsed document" % what)
+            break
+        if back != text:
+            fails.append("%s: %s deserialize() of one parsed document is re-written differently from the file" % (what, n))
+            break
+    for how, out in (("an empty dict", {}), ("a dict holding the previous document", copy.deepcopy(snap))):
+        try:
+            obj.serialize(out)
+        except Exception as exc:
+            fails.append("%s: serialize() into %s: %s: %s" % (what, how, type(exc).__name__, exc))
+            continue
+        try:
+            t = canonical_json(out)
+        except Exception as exc:
+            fails.append("%s: serialize() into %s left something json cannot write: %s" % (what, how, exc))
+            continue
+        if t != text:
+            fails.append("%s: serialize() into %s gives a document that differs from dumps()" % (what, how))
+    return fails
+
+
 def file_cycle(obj, text, what, name="manifest.json", dump_kw=None, reload=None):
     """The write/read cycle through real files: dump(path) onto a fresh path, onto a path that already holds a LONGER file
     (the new file must replace it, not overlay it), and into an open file object; each time the bytes on disk must equal
@@ -520,6 +563,17 @@ def file_cycle(obj, text, what, name="manifest.json", dump_kw=None, reload=None)
                     continue
                 if back != text:
                     fails.append("%s: file written to %s reads back differently" % (what, step))
+        if reload is not None and not fails and text.lstrip().startswith("{"):
+            # JSON read from file objects that yield bytes (a file opened "rb", an archive member, an in-memory buffer)
+            import io
+            for how, mk in (("a file opened in binary mode", lambda: open(p, "rb")), ("io.BytesIO", lambda: io.BytesIO(text.encode("utf-8")))):
+                try:
+                    with mk() as fh:
+                        back = reload(fh)
+                    if back != text:
+                        fails.append("%s: read from %s: reads back differently" % (what, how))
+                except Exception as exc:
+                    fails.append("%s: read from %s: %s: %s" % (what, how, type(exc).__name__, exc))
         if reload is not None and not fails:
             # written and read through ONE open file object (load() finds the beginning itself, as it does for a path)
             try:
